@@ -1,0 +1,15 @@
+//! Verification hooks (compiled only with `--cfg vbxq_aelys_lang_verif`).
+use std::sync::atomic::{AtomicU64, Ordering};
+
+/// Number of times an unchecked accessor was applied to a value of the wrong kind.
+pub static UNCHECKED_MISMATCHES: AtomicU64 = AtomicU64::new(0);
+
+pub fn mismatch() {
+    UNCHECKED_MISMATCHES.fetch_add(1, Ordering::Relaxed);
+}
+pub fn mismatches() -> u64 {
+    UNCHECKED_MISMATCHES.load(Ordering::Relaxed)
+}
+pub fn mismatches_reset() {
+    UNCHECKED_MISMATCHES.store(0, Ordering::Relaxed);
+}
